@@ -103,6 +103,7 @@ func casesUciGo(c *caseCtx) {
 	emitZKeys(c, 0)
 	bookChecks(c, "C04")
 	engineAnswerChecks(c)
+	caseVariantSessions(c)
 	for g := 0; g < c.scale(30, 600); g++ {
 		hash := uint(c.r.Intn(2))
 		quiet := c.r.Intn(4) == 0
@@ -262,4 +263,139 @@ func engineAnswerChecks(c *caseCtx) {
 		}
 	}
 	fmt.Printf("COUNT special-positions %d\n", n)
+}
+
+// runUciScript drives a fresh driver over the given lines (each go is waited for) and returns, per go,
+// the bestmove and the last reported score token; ok=false if the driver closed or an answer timed out.
+func runUciScript(e *engine.Engine, opts []uci.Option, lines []string) (best []string, scores []string, ok bool) {
+	ctx := context.Background()
+	in := make(chan string, 4)
+	_, out := uci.NewDriver(ctx, e, in, opts...)
+	defer close(in)
+	for _, l := range lines {
+		in <- l
+		if !strings.HasPrefix(l, "go") {
+			continue
+		}
+		score := "-"
+		timeout := time.After(60 * time.Second)
+	wait:
+		for {
+			select {
+			case o, open := <-out:
+				if !open {
+					return best, scores, false
+				}
+				if strings.HasPrefix(o, "info ") {
+					f := strings.Fields(o)
+					for i := range f {
+						if f[i] == "score" && i+2 < len(f) {
+							score = f[i+1] + ":" + f[i+2]
+						}
+					}
+				}
+				if strings.HasPrefix(o, "bestmove") {
+					f := strings.Fields(o)
+					b := "-"
+					if len(f) > 1 {
+						b = f[1]
+					}
+					best = append(best, b)
+					scores = append(scores, score)
+					break wait
+				}
+			case <-timeout:
+				return best, scores, false
+			}
+		}
+	}
+	return best, scores, true
+}
+
+// caseVariantSessions (C04): a position line that differs from the previous one only in the case of
+// letters or in spacing describes another position (piece colours, castling sides): the answer to the
+// next go must be legal THERE.
+func caseVariantSessions(c *caseCtx) {
+	ctx := context.Background()
+	type sess struct {
+		lines []string
+		fens  []string // the position each go is asked in
+	}
+	ss := []sess{
+		{[]string{"position fen 3qk3/8/8/8/8/8/8/3RK3 w - - 0 1", "go depth 2", "position fen 3qk3/8/8/8/8/8/8/3rK3 w - - 0 1", "go depth 2"},
+			[]string{"3qk3/8/8/8/8/8/8/3RK3 w - - 0 1", "3qk3/8/8/8/8/8/8/3rK3 w - - 0 1"}},
+		{[]string{"position fen r3k2r/8/8/8/8/8/8/R3K2R w Kq - 0 1", "go depth 1", "position fen r3k2r/8/8/8/8/8/8/R3K2R w kQ - 0 1", "go depth 1"},
+			[]string{"r3k2r/8/8/8/8/8/8/R3K2R w Kq - 0 1", "r3k2r/8/8/8/8/8/8/R3K2R w kQ - 0 1"}},
+		{[]string{"position fen 4k3/8/8/8/8/8/3Q4/4K3 b - - 0 1", "go depth 1", "position fen 4k3/8/8/8/8/8/3q4/4K3 b - - 0 1", "go depth 1"},
+			[]string{"4k3/8/8/8/8/8/3Q4/4K3 b - - 0 1", "4k3/8/8/8/8/8/3q4/4K3 b - - 0 1"}},
+		{[]string{"position  startpos   moves e2e4", "go depth 1", "position startpos moves e2e4 e7e5", "go depth 1"},
+			[]string{"rnbqkbnr/pppppppp/8/8/4P3/8/PPPP1PPP/RNBQKBNR b KQkq e3 0 1", "rnbqkbnr/pppp1ppp/8/4p3/4P3/8/PPPP1PPP/RNBQKBNR w KQkq e6 0 2"}},
+	}
+	n := 0
+	for _, s := range ss {
+		for _, name := range []string{"morlock", "turochamp"} {
+			e, opts := bundledEngine(ctx, name, uint(n%2), 0, 2, false, 1)
+			best, _, ok := runUciScript(e, opts, s.lines)
+			n++
+			if !ok {
+				// a driver that shuts down on a line it cannot read is not a C04 matter as long as it answered before
+				continue
+			}
+			for i, b := range best {
+				if i >= len(s.fens) {
+					break
+				}
+				pos, turn, _, _, err := fen.Decode(s.fens[i])
+				if err != nil {
+					continue
+				}
+				legal := map[string]bool{}
+				for _, m := range legalMoves(pos, turn) {
+					legal[uciMove(m)] = true
+				}
+				if (b == "0000" && len(legal) > 0) || (b != "0000" && !legal[b]) {
+					fmt.Printf("IMPLVIOL uci %s :: %s: bestmove %s for go #%d is not legal in the position last set up (%s) prop=C04 key=stale-position\n", strings.Join(s.lines, "; "), name, b, i+1, s.fens[i])
+				}
+			}
+		}
+	}
+	fmt.Printf("COUNT case-variant-sessions %d\n", n)
+}
+
+// uciTableSessions (C11): the same UCI session on an engine with a hash table and on one without gives
+// the same scores (history-free continuations, no repetition inside the tree); go lines may carry tokens
+// the driver does not know (searchmoves).
+func uciTableSessions(c *caseCtx) {
+	ctx := context.Background()
+	sessions := [][]string{
+		{"position startpos moves b1c3", "go searchmoves b7b5 depth 3", "position startpos moves b1c3 g8f6 g1f3 f6g8", "go depth 4"},
+		{"position startpos moves e2e4 e7e5", "go depth 3 searchmoves a2a3", "position startpos moves e2e4 e7e5 g1f3", "go depth 3", "position startpos moves e2e4 e7e5 g1f3 b8c6", "go depth 3"},
+		{"position fen 6k1/5ppp/4p3/3p4/8/8/P7/3QK3 w - - 0 1", "go searchmoves d1d5 depth 2", "position fen 6k1/5ppp/4p3/3p4/8/8/P7/3QK3 w - - 0 1 moves a2a3 g8f8", "go depth 3"},
+	}
+	n := 0
+	for _, lines := range sessions {
+		for _, minDepth := range []bool{false, true} {
+			mk := func(hash uint) *engine.Engine {
+				root := search.AlphaBeta{Eval: search.Leaf{Eval: eval.Material{}}}
+				opts := []engine.Option{engine.WithOptions(engine.Options{Hash: hash})}
+				if minDepth {
+					opts = append(opts, engine.WithTable(search.NewMinDepthTranspositionTable(1)))
+				}
+				return engine.New(ctx, "morlock", "t", root, opts...)
+			}
+			_, with, ok1 := runUciScript(mk(1), nil, lines)
+			_, without, ok2 := runUciScript(mk(0), nil, lines)
+			n++
+			if !ok1 || !ok2 {
+				continue
+			}
+			for i := range with {
+				if i < len(without) && with[i] != without[i] {
+					fmt.Printf("IMPLVIOL ucitable %s :: go #%d reports score %s with a hash table, %s without prop=C11 key=uci-table\n", strings.Join(lines, "; "), i+1, with[i], without[i])
+					break
+				}
+			}
+		}
+	}
+	fmt.Printf("COUNT uci-table-sessions %d\n", n)
 }
